@@ -80,6 +80,12 @@ class Classifier:
                 self.hits += 1
         if f is None:
             f = rt.classify(d, text, r)
+        if r.get('at') is not None and f.get('at') != r['at'] and any(k.get('status') == 'open' and rt.kf_match(k, f) for k in self.chk.kf):
+            # the shrunk input fails at another word of the printed text than the input did AND has the class of a known
+            # finding: the shrink drifted into that finding; shrink again keeping the word, report what that gives if it is new
+            f2 = rt.classify(d, text, r, at=r['at'])
+            if f2 is not None and not any(k.get('status') == 'open' and rt.kf_match(k, f2) for k in self.chk.kf):
+                f = f2
         f['src'] = src
         f['class'] = f['cls']
         f['desc'] = '%s: %s %r prints %r (%s%s)' % (d, f['kind'], f['shrunk'][:200], (f.get('printed') or '')[:200],
@@ -676,6 +682,26 @@ def rawtext_stream(chk, cl, dist, quick):
             # the same statement with the layout applied outside the embedded text as well
             run_case(chk, cl, d, ('CREATE VIEW v%sAS%s(%s)' % (seps[0], seps[-1], inner)), 'rawtext', dist, 'rawtext/%s' % d)
 
+# ------------------------------------------------------------------------------------------ DDL from the grammar rules
+# CREATE TABLE statements derived from the productions of the exported grammar (tools/harness/ddlgen.py): every derivation
+# of a column definition (type with / without length, DEFAULT, inline PRIMARY KEY, NULL / NOT NULL suffixes), alone, in every
+# ordered pair and in sampled triples, PRIMARY KEY clause over the first / last / first two / all columns, x OR REPLACE x
+# IF NOT EXISTS, + the SELECT forms; all dialects that have the rules.  The oracle also compares the attributes of the
+# column definitions (rt.holder_records): CreateTable.to_tree shows `name: type` only.
+def ddl_stream(chk, cl, dist, quick):
+    from tools.harness import ddlgen
+    for d in DIALECTS:
+        rng = common.rng_for('C01-fixed-ddl', d)
+        try:
+            sts = ddlgen.create_table_statements(d, rng, 150 if quick else 3000)
+        except Exception as e:
+            chk.oblige('probe:ddl-from-grammar', 'probe', False, 'generator failed for %s: %s' % (d, e))
+            continue
+        for tag, text in sts:
+            run_case(chk, cl, d, text, 'ddl:' + tag, dist, 'ddl/%s/%s' % (d, tag))
+        dist['ddl/%s/statements' % d] = '%d' % len(sts)
+
+
 # ------------------------------------------------------------------------------------------ printing histories
 # The printed form must be a function of the tree alone.  Every other stream looks at one statement at a time, in one
 # process whose state is whatever the earlier streams left behind; a printer that remembers decisions in process state
@@ -1155,6 +1181,7 @@ def run(chk):
     sequence_stream(chk, cl, dist, quick)
     rawtext_stream(chk, cl, dist, quick)
     skeleton_stream(chk, cl, dist, quick)
+    ddl_stream(chk, cl, dist, quick)
     import time, resource
     t0, c0, k0 = time.time(), time.process_time(), resource.getrusage(resource.RUSAGE_CHILDREN)
     history_stream(chk, cl, dist, quick)      # last: this process then has the longest history
